@@ -18,6 +18,7 @@ import (
 	"io"
 	"os"
 	"os/exec"
+	"os/signal"
 	"path/filepath"
 	"sort"
 	"strconv"
@@ -41,9 +42,12 @@ type Cfg struct {
 	Mode     uint32 `json:"mode"`
 	Foreign  []int  `json:"foreign,omitempty"` // indices into foreignNames, planted before the first call
 	PreDir   bool   `json:"pre_dir,omitempty"` // the directory exists already (mode 0750)
+	// fsize cases: the child runs with RLIMIT_FSIZE = FsizeLimit and processes FsizeEvents events
+	FsizeLimit  int `json:"fsize_limit,omitempty"`
+	FsizeEvents int `json:"fsize_events,omitempty"`
 }
 type Op struct {
-	K       string `json:"k"` // w | reopen | extren | pause
+	K       string `json:"k"` // w | reopen | extren | pause | rmdir | rmactive
 	Size    int    `json:"size,omitempty"`
 	PauseUs int    `json:"pause_us,omitempty"`
 }
@@ -56,6 +60,7 @@ type Case struct {
 	Seed    uint64 `json:"seed,omitempty"`    // generator seed of this case
 	Writers []int  `json:"writers,omitempty"` // conc: events per writer
 	KillUs  int    `json:"kill_us,omitempty"` // kill: delay after the first acknowledgement
+	Rm      bool   `json:"rm,omitempty"`      // generate deletions from outside (rmdir / rmactive) as well
 }
 
 // observation of one file of the sink's name space / after one step
@@ -456,7 +461,8 @@ func execSeq(c Case, root string) (res result) {
 	var prev *SObs
 	last := int64(0) // last reading fed to the model
 	nextKey := 1
-	rotations, extrens, ambiguous, certainYes, certainNo := 0, 0, 0, 0, 0
+	rotations, extrens, ambiguous, certainYes, certainNo, removals := 0, 0, 0, 0, 0, 0
+	lastWasRm := false
 	var steps []step
 	var sigb strings.Builder
 	fmt.Fprintf(&sigb, "%+v|", c.Cfg)
@@ -464,7 +470,7 @@ func execSeq(c Case, root string) (res result) {
 	for i := 0; i < n; i++ {
 		var op Op
 		if adaptive {
-			op = genOp(r, c.Cfg, fs, open, nextKey)
+			op = genOp(r, c, fs, open, nextKey, lastWasRm)
 			res.c.Ops = append(res.c.Ops, op)
 		} else {
 			op = c.Ops[i]
@@ -589,7 +595,7 @@ func execSeq(c Case, root string) (res result) {
 			} else if !special {
 				open = false
 			}
-			steps = append(steps, step{fmt.Sprintf("Write %s %s %s %s %s %s %s nofault", hc.N(key), hc.Z(int64(op.Size)),
+			steps = append(steps, step{fmt.Sprintf("XOp (Write %s %s %s %s %s %s %s nofault)", hc.N(key), hc.Z(int64(op.Size)),
 				hc.Z(fd.T[0]), hc.Z(fd.T[1]), hc.Z(fd.T[2]), hc.Z(fd.T[3]), hc.Z(fd.T[4])), o})
 			res.obs, res.feeds, prev = append(res.obs, o), append(res.feeds, fd), o
 		case "reopen":
@@ -612,7 +618,7 @@ func execSeq(c Case, root string) (res result) {
 					}
 				}
 			}
-			steps = append(steps, step{"Reopen " + hc.Z(t), o})
+			steps = append(steps, step{"XOp (Reopen " + hc.Z(t) + ")", o})
 			res.obs, res.feeds, prev = append(res.obs, o), append(res.feeds, Feed{T: [5]int64{t}}), o
 		case "extren":
 			abs := after(last + t0)
@@ -626,19 +632,44 @@ func execSeq(c Case, root string) (res result) {
 			}
 			o := observe(true, nil)
 			last = max64(t, nowNs()-t0)
-			steps = append(steps, step{"ExtRename " + hc.Z(t), o})
+			steps = append(steps, step{"XOp (ExtRename " + hc.Z(t) + ")", o})
 			res.obs, res.feeds, prev = append(res.obs, o), append(res.feeds, Feed{T: [5]int64{t}}), o
 		case "pause":
 			time.Sleep(time.Duration(op.PauseUs) * time.Microsecond)
 			t := after(last+t0) - t0
 			o := observe(true, nil)
 			last = t
-			steps = append(steps, step{"Pause " + hc.Z(t), o})
+			steps = append(steps, step{"XOp (Pause " + hc.Z(t) + ")", o})
+			res.obs, res.feeds, prev = append(res.obs, o), append(res.feeds, Feed{T: [5]int64{t}}), o
+		case "rmdir", "rmactive":
+			// somebody deletes the whole log directory / only the file the sink has open
+			t := after(last+t0) - t0
+			if !special {
+				if op.K == "rmdir" {
+					os.RemoveAll(dir)
+					activeName = ""
+					removals++
+				} else if open && activeName != "" {
+					if os.Remove(filepath.Join(dir, activeName)) == nil {
+						removals++
+					}
+					activeName = ""
+				}
+			}
+			o := observe(true, nil)
+			last = max64(t, nowNs()-t0)
+			lit := "XRmDir "
+			if op.K == "rmactive" {
+				lit = "XRmActive "
+			}
+			steps = append(steps, step{lit + hc.Z(t), o})
 			res.obs, res.feeds, prev = append(res.obs, o), append(res.feeds, Feed{T: [5]int64{t}}), o
 		default:
 			panic("unknown op " + op.K)
 		}
+		lastWasRm = op.K == "rmdir" || op.K == "rmactive"
 	}
+	res.stats["external_removals_done"] = removals
 	res.stats["rotations_observed"] = rotations
 	res.stats["ext_renames_done"] = extrens
 	res.stats["duration_ambiguous"] = ambiguous
@@ -721,7 +752,20 @@ func genCfg(r *hc.Rand, timeCases bool) Cfg {
 }
 
 // one operation, chosen knowing the sink's exported counters (boundary bias)
-func genOp(r *hc.Rand, c Cfg, fs *el.FileSink, open bool, nextKey int) Op {
+func genOp(r *hc.Rand, cs Case, fs *el.FileSink, open bool, nextKey int, lastWasRm bool) Op {
+	c := cs.Cfg
+	if cs.Rm && nextKey >= 2 {
+		// histories with deletions from outside: the interesting part is the next open() — Reopen or a rotating write
+		if lastWasRm && r.Chance(1, 2) {
+			return Op{K: "reopen"}
+		}
+		switch y := r.Intn(100); {
+		case y < 7:
+			return Op{K: "rmdir"}
+		case y < 12:
+			return Op{K: "rmactive"}
+		}
+	}
 	x := r.Intn(100)
 	timed := c.MaxDurMs > 0
 	switch {
@@ -842,7 +886,7 @@ func execConc(c Case, root string) (res result) {
 	model := c.Cfg.MaxFiles == 0
 	t := int64(10)
 	wr := func(id int, ob *SObs) {
-		steps = append(steps, step{fmt.Sprintf("Write %s %s %s %s %s %s %s nofault", hc.N(id), hc.Z(int64(sizes[id])),
+		steps = append(steps, step{fmt.Sprintf("XOp (Write %s %s %s %s %s %s %s nofault)", hc.N(id), hc.Z(int64(sizes[id])),
 			hc.Z(t+1), hc.Z(t+2), hc.Z(t+3), hc.Z(t+4), hc.Z(t+5)), ob})
 		t += 10
 	}
@@ -875,7 +919,7 @@ func execConc(c Case, root string) (res result) {
 			}
 		}
 		if len(order) == 0 {
-			steps = append(steps, step{"Pause 5%Z", o})
+			steps = append(steps, step{"XOp (Pause 5%Z)", o})
 		}
 	} else {
 		for w := range acked {
@@ -883,7 +927,7 @@ func execConc(c Case, root string) (res result) {
 				wr(id, nil)
 			}
 		}
-		steps = append(steps, step{"Pause " + hc.Z(t+1), o})
+		steps = append(steps, step{"XOp (Pause " + hc.Z(t+1) + ")", o})
 	}
 	res.obs = []*SObs{o}
 	res.stats["conc_events"] = total
@@ -903,6 +947,25 @@ func childMain(cfgJSON string, dir string) {
 	fs := &el.FileSink{Path: dir, FileName: c.FileName, MaxBytes: c.MaxBytes, MaxFiles: c.MaxFiles,
 		TimestampOnlyOnRotate: c.TsOnly, Mode: os.FileMode(c.Mode)}
 	ackPipe := os.NewFile(3, "acks")
+	if c.FsizeLimit > 0 {
+		// write(2) starts failing (EFBIG, possibly after a short write) once a file reaches the limit
+		signal.Ignore(syscall.SIGXFSZ)
+		lim := syscall.Rlimit{Cur: uint64(c.FsizeLimit), Max: uint64(c.FsizeLimit)}
+		if err := syscall.Setrlimit(syscall.RLIMIT_FSIZE, &lim); err != nil {
+			os.Exit(6)
+		}
+		for i := 1; i <= c.FsizeEvents; i++ {
+			_, err := fs.Process(context.Background(), &el.Event{Formatted: map[string][]byte{el.JSONFormat: linePayload(i)}})
+			b := byte('a')
+			if err != nil {
+				b = 'e'
+			}
+			if _, err := ackPipe.Write([]byte{b}); err != nil {
+				os.Exit(5)
+			}
+		}
+		os.Exit(0)
+	}
 	for i := 1; ; i++ {
 		_, err := fs.Process(context.Background(), &el.Event{Formatted: map[string][]byte{el.JSONFormat: linePayload(i)}})
 		if err != nil {
@@ -917,6 +980,7 @@ func childMain(cfgJSON string, dir string) {
 }
 
 type kresult struct {
+	fsize    bool
 	c        Case
 	lit      string
 	acks     int
@@ -997,6 +1061,57 @@ func execKill(c Case, root string) (res kresult) {
 	return res
 }
 
+// ---------- failing write(2): a child whose files may not grow beyond RLIMIT_FSIZE ----------
+func execFsize(c Case, root string) (res kresult) {
+	res.c = c
+	defer func() {
+		if r := recover(); r != nil {
+			res.panicked = fmt.Sprint(r)
+		}
+	}()
+	ns := newNamespace(c.Cfg.FileName)
+	dir := filepath.Join(root, fmt.Sprintf("l%06d", c.ID), "logs")
+	os.RemoveAll(filepath.Dir(dir))
+	os.MkdirAll(filepath.Dir(dir), 0o755)
+	defer os.RemoveAll(filepath.Dir(dir))
+	pr, pw, err := os.Pipe()
+	if err != nil {
+		panic(err)
+	}
+	js, _ := json.Marshal(c.Cfg)
+	cmd := exec.Command(os.Args[0], "-child", string(js), "-child-dir", dir)
+	cmd.ExtraFiles = []*os.File{pw}
+	var stderr bytes.Buffer
+	cmd.Stderr = &stderr
+	if err := cmd.Start(); err != nil {
+		panic(err)
+	}
+	pw.Close()
+	acks, _ := io.ReadAll(pr)
+	pr.Close()
+	if err := cmd.Wait(); err != nil {
+		panic(fmt.Sprintf("fsize child failed: %v %s", err, stderr.String()))
+	}
+	files, _, _ := listDir(dir, ns, lineTokens, nil, nil)
+	var ackedIDs []int
+	failed := 0
+	for i, b := range acks {
+		if b == 'a' {
+			ackedIDs = append(ackedIDs, i+1)
+		} else {
+			failed++
+		}
+	}
+	res.acks, res.files = len(ackedIDs), files
+	res.nontriv = failed > 0 && len(ackedIDs) > 0
+	fl := make([]string, len(files))
+	for i, f := range files {
+		fl[i] = fobsLit(f)
+	}
+	res.lit = fmt.Sprintf("{| l_id := %s; l_cfg := %s; l_acked := %s; l_failed := %s; l_files := %s |}", hc.N(c.ID), cfgLit(c.Cfg), nlist(ackedIDs), hc.N(failed), hc.List(fl))
+	return res
+}
+
 // ---------- main ----------
 type emitter struct {
 	cf      *hc.CaseFile
@@ -1038,11 +1153,13 @@ func readCorpus(path string) []Case {
 func main() {
 	out := flag.String("out", ".", "output directory")
 	prefix := flag.String("prefix", "cases", "case file prefix")
-	modes := flag.String("modes", "seq,timed,special", "generators: seq,timed,special,conc,kill")
+	modes := flag.String("modes", "seq,timed,special", "generators: seq,timed,seqrm,special,conc,kill,fsize")
 	nSeq := flag.Int("seq", 500, "sequential size-triggered cases")
 	nTimed := flag.Int("timed", 100, "sequential cases with MaxDuration = 30ms")
+	nSeqRm := flag.Int("seqrm", 150, "sequential cases that also delete the directory / the active file from outside")
 	nConc := flag.Int("conc", 40, "concurrent-writer cases")
 	nKill := flag.Int("kill", 30, "SIGKILL cases")
+	nFsize := flag.Int("fsize", 30, "cases run by a child under RLIMIT_FSIZE (write(2) fails once a file reaches the limit)")
 	length := flag.Int("len", 25, "operations per sequential case")
 	perShard := flag.Int("per-shard", 50, "cases per file")
 	workers := flag.Int("workers", 48, "cases run in parallel")
@@ -1077,6 +1194,12 @@ func main() {
 		}
 		c := wrapper.Case
 		switch {
+		case c.Cfg.FsizeLimit > 0:
+			k := execFsize(c, *root)
+			fmt.Printf("fsize case (RLIMIT_FSIZE %d): %d events acknowledged\n", c.Cfg.FsizeLimit, k.acks)
+			for _, f := range k.files {
+				fmt.Printf("  %s mode %o size %d events %s\n", f.Name, f.Mode, f.Size, summarise(f.Data))
+			}
 		case c.KillUs > 0 || c.Gen == "kill":
 			k := execKill(c, *root)
 			fmt.Printf("kill case: %d acknowledgements reached the parent\n", k.acks)
@@ -1106,6 +1229,8 @@ func main() {
 		Footer: "Definition M := Eval vm_compute in mismatches cases.\nPrint M.\nDefinition C := Eval vm_compute in coverage cases.\nPrint C."}
 	kf := &hc.CaseFile{Dir: *out, Prefix: *prefix + "_kill", PerShard: 10, Type: "list kcase", Header: header,
 		Footer: "Definition M := Eval vm_compute in kill_mismatches cases.\nPrint M.\nDefinition W := Eval vm_compute in kill_positions cases.\nPrint W."}
+	lf := &hc.CaseFile{Dir: *out, Prefix: *prefix + "_fsize", PerShard: 50, Type: "list lcase", Header: header,
+		Footer: "Definition M := Eval vm_compute in fsize_mismatches cases.\nPrint M."}
 	sideF, err := os.Create(*out + "/" + *prefix + ".jsonl")
 	if err != nil {
 		panic(err)
@@ -1126,14 +1251,17 @@ func main() {
 	}
 	for _, m := range strings.Split(*modes, ",") {
 		switch m {
-		case "seq", "timed":
+		case "seq", "timed", "seqrm":
 			n := *nSeq
 			if m == "timed" {
 				n = *nTimed
 			}
+			if m == "seqrm" {
+				n = *nSeqRm
+			}
 			g := r.Fork()
 			for i := 0; i < n; i++ {
-				todo = append(todo, Case{ID: id, Gen: m, Cfg: genCfg(g, m == "timed"), Len: *length, Seed: g.U64()})
+				todo = append(todo, Case{ID: id, Gen: m, Cfg: genCfg(g, m == "timed"), Len: *length, Seed: g.U64(), Rm: m == "seqrm"})
 				id++
 			}
 		case "special":
@@ -1168,6 +1296,19 @@ func main() {
 				todo = append(todo, Case{ID: id, Gen: "conc", Cfg: c, Writers: ws, Seed: g.U64()})
 				id++
 			}
+		case "fsize":
+			g := r.Fork()
+			for i := 0; i < *nFsize; i++ {
+				c := genCfg(g, false)
+				c.Foreign, c.PreDir, c.MaxFiles = nil, false, 0
+				if g.Bool() {
+					c.MaxBytes = 0
+				}
+				c.FsizeLimit = 100 + g.Intn(900)
+				c.FsizeEvents = 40
+				todo = append(todo, Case{ID: id, Gen: "fsize", Cfg: c, Seed: g.U64()})
+				id++
+			}
 		case "kill":
 			g := r.Fork()
 			for i := 0; i < *nKill; i++ {
@@ -1199,6 +1340,12 @@ func main() {
 			defer wg.Done()
 			c := todo[i]
 			switch {
+			case c.Gen == "fsize" || c.Cfg.FsizeLimit > 0:
+				killSem <- struct{}{}
+				k := execFsize(c, *root)
+				<-killSem
+				k.fsize = true
+				results[i].k = &k
 			case c.Gen == "kill" || c.KillUs > 0:
 				killSem <- struct{}{}
 				k := execKill(c, *root)
@@ -1224,10 +1371,19 @@ func main() {
 				e.panics = append(e.panics, fmt.Sprintf("case %d: %s", k.c.ID, k.panicked))
 				continue
 			}
-			kf.Add(k.lit)
 			js, _ := json.Marshal(k.c)
 			side.Write(js)
 			side.WriteString("\n")
+			if k.fsize {
+				lf.Add(k.lit)
+				e.stats["fsize_cases"]++
+				e.stats["fsize_acks"] += k.acks
+				if k.nontriv {
+					e.nontriv++
+				}
+				continue
+			}
+			kf.Add(k.lit)
 			e.stats["kill_cases"]++
 			e.stats["kill_acks"] += k.acks
 			if k.nontriv {
@@ -1253,20 +1409,21 @@ func main() {
 	}
 	cf.Close()
 	kf.Close()
+	lf.Close()
 	side.Flush()
 	sideF.Close()
 	os.RemoveAll(*root)
 	summary := map[string]interface{}{}
 	summary["stats"] = e.stats
 	summary["files"] = cf.Files
-	summary["kill_files"] = kf.Files
-	summary["cases"] = cf.Total + kf.Total
+	summary["kill_files"] = append(append([]string{}, kf.Files...), lf.Files...)
+	summary["cases"] = cf.Total + kf.Total + lf.Total
 	summary["distinct_nontrivial"] = e.nontriv
 	summary["panics"] = e.panics
 	summary["seed"] = hc.Seed()
 	js, _ := json.MarshalIndent(summary, "", " ")
 	os.WriteFile(*out+"/"+*prefix+"_summary.json", js, 0o644)
-	fmt.Printf("filesinkh: %d cases in %d files, %d panics\n", cf.Total+kf.Total, len(cf.Files)+len(kf.Files), len(e.panics))
+	fmt.Printf("filesinkh: %d cases in %d files, %d panics\n", cf.Total+kf.Total+lf.Total, len(cf.Files)+len(kf.Files)+len(lf.Files), len(e.panics))
 }
 
 func summarise(xs []int) string {
